@@ -445,6 +445,7 @@ package jet
 //@   loop 1 invariant [defer] deferred(0) == inNewScope
 //@   loop 1 invariant [ctx] context == old(st.context)
 //@   loop 1 invariant [scope] ite(isLet, st.scope.parent != nil && ite(inNewScope, st.scope.parent.parent == old(st.scope), st.scope.parent == old(st.scope)), ite(inNewScope, st.scope.parent == old(st.scope), st.scope == old(st.scope)))
+//@   loop 0 monotone [return-value-kept] {C09} RvValid(returnValue)
 //@   ensures [list-balanced-scope] st.scope == old(st.scope)
 //@   ensures [list-balanced-context] st.context == old(st.context)
 //@   ensures [list-balanced-content] st.content == old(st.content)
